@@ -269,9 +269,22 @@ def inb_configs(tier):
                 base.append(("q2", dict(ids="Ids1", n=2, kinds="KPub2", outs="OOk", imm=T, gp=F)))
             for name, p in base:
                 p = dict(p, ver=ver, role=role)
-                cs.append((f"v{ver}{role[0]}_{name}", INB_CFG.format(**p), "MC_Inbound", inb_decode_for(p),
+                cs.append((f"v{ver}{role[0]}_{name}", INB_CFG.format(**p), "MC_Endpoint", inb_decode_for(p),
                            [None, "code16"] if ver == 5 and srv and name in ("pub", "ids") else [None]))
     return cs
+
+
+def inb_tok2rec(t):
+    if t[0] == "i":
+        kind, i, mode = t[1:].split(":")
+        return dict(a="in", kind=kind, id=int(i), imm=0 if mode == "g" else 1, o="ok" if mode == "g" else mode, h=0)
+    h, o = t[1:].split(":")
+    return dict(a="c", kind="", id=0, imm=0, o=o, h=int(h))
+
+
+def inb_project(e):
+    # h_start.r carries the PUBLISH flags the handler saw (decided by ProtoMon's C03 rules, not by the model)
+    return dict(e=e["e"], k=e["k"], s=e["s"], id=e["id"], q=e["q"], r=0 if e["e"] in ("h_start", "h_end") else e["r"])
 
 
 def inb_random(tier, rnd):
@@ -327,6 +340,7 @@ def inb_signature(v):
 
 reg(dict(
     name="inbound", judge="ProtoJudge", configs=inb_configs, extra_runs=inb_random, signature=inb_signature,
+    conform=dict(module="EndpointConform", tok2rec=inb_tok2rec, tail=1, project=inb_project),
     level={}, quota=300,
     rule="every transition of the bounded TLC state graph of Inbound.tla (packet sequences x handler "
          "completion orders x immediate/deferred handlers) is a replay candidate; quick replays a seeded sample, "
